@@ -17,6 +17,18 @@ CHECKS = {
  "C10": dict(cat="exploration", tech="runtime monitoring / fuzzing: one monitored child process per hostile input (exit status, Go panic text and call site, child CPU and peak RSS via rusage, located-diagnostic oracle)",
    text="Held on the inputs explored (raw bytes, 12 text/YAML mutation operators, arbitrary models, manifest and -c mutations, generic nesting) except for the listed known findings, each identified by panic call site or input class. Exploration: a fuzzer samples the input space.",
    note="Trusted: rusage accounting; PyYAML of the system python only to excuse yaml.v3's missing line number for first-line syntax errors.", ref="§5 C10"),
+ "C06": dict(cat="exploration", tech="runtime monitoring of `yardl validate` on (old, new) pairs built from a catalogue of documented edit classes at seeded positions; verdict oracle on exit status / errors / warnings, 3 fresh processes per pair",
+   text="Held on the pairs explored (reflexive, meaning-preserving, breaking, compatible, partially compatible, unrelated) except for two listed known findings. Exploration over seeded bases and positions.",
+   note="Trusted: the catalogue's reading of docs/cpp/evolution.md; adding an enum symbol is treated as don't-care (deliberately allowed by the implementation).", ref="§5 C06"),
+ "C09": dict(cat="exploration", tech="single-fault injection with control calibration: each rule's violating construct run alone (control) and then at every position / file; oracle on exit status and on the file named by the diagnostics",
+   text="Held for 64 rule constructs x 11 positions x 4 files except three listed known findings (named map keys, unions inside generic arguments, streams nested in steps).",
+   note="Trusted: the catalogue instantiates each rule with the construct the repository's own unit tests use; the valid base tree is checked to be accepted.", ref="§5 C09"),
+ "C11": dict(cat="fault_enumeration", tech="fault enumeration with file-system monitor: recursive (sha256, mtime_ns, inode) snapshot before/after failing `yardl generate` runs plus file.write/file.remove hook events",
+   text="Every enumerated failing input x output configuration x initial state left the tree byte- and mtime-identical and logged no write. Enumeration is over the listed fault catalogue, not all invalid packages.",
+   note="Trusted: snapshot covers the whole case tree (HOME excluded); verif-tagged build for the event log.", ref="§5 C11"),
+ "C12": dict(cat="exploration", tech="runtime monitoring across N fresh processes (fresh map-iteration seeds): hashes of all outputs, diagnostics and exit status compared; re-run monitored with mtime/inode snapshot and write events",
+   text="All N runs identical and the re-run touched nothing, for the packages explored. A two-outcome order dependence escapes N runs with probability 2^-(N-1) (N=5 quick, 25 thorough).",
+   note="Trusted: same absolute paths for the runs of one package; sha256.", ref="§5 C12"),
 }
 NA_REASON = "check not built yet in this session (work in progress, see DESIGN.md §5 for the planned monitor)"
 
